@@ -804,6 +804,21 @@ impl<'tcx> Cx<'tcx> {
         }
         if matches!(tcx.def_kind(did), DefKind::Closure) {
             o.push(("parent", J::s(path_of(tcx, tcx.parent(did)))));
+        } else if matches!(tcx.def_kind(did), DefKind::Fn | DefKind::AssocFn) {
+            // names of the type parameters in substitution order (parents first): lets the analyzer bind them at a call
+            let mut chain = vec![tcx.generics_of(did)];
+            while let Some(p) = chain.last().unwrap().parent {
+                chain.push(tcx.generics_of(p));
+            }
+            let mut gn = vec![];
+            for g in chain.iter().rev() {
+                for p in &g.own_params {
+                    if let ty::GenericParamDefKind::Type { .. } = p.kind {
+                        gn.push(J::s(p.name.to_string()));
+                    }
+                }
+            }
+            o.push(("generics", J::Arr(gn)));
         }
         J::Obj(o)
     }
